@@ -336,6 +336,16 @@ def runStream (trk : Tracker) (me : Bytes) (evs : List Ev) (cut : Bytes → List
   let rr := readLoop trk (wire.length + 1) r0 ps
   ⟨w.1, rr.1, rr.2.broken, w.2.broken⟩
 
+/-- `runStream` on a connection that is cut after `k` bytes of the wire (then ends with `tail`): the
+fault "the connection is lost at an arbitrary offset", mid-header and mid-payload included. -/
+def runStreamCut (trk : Tracker) (me : Bytes) (evs : List Ev) (cut : Bytes → List Bytes) (tail : Tail) (rw : Bool)
+    (ps : List Nat) (k : Nat) : StObs :=
+  let w := runWriter (FS.init (tunnelIDFromString me) ⟨[], .eof⟩) evs
+  let wire := w.2.out.take k
+  let r0 : FS := { FS.init (tunnelIDFromString me) ⟨cut wire, tail⟩ with writeEOF := rw }
+  let rr := readLoop trk (wire.length + 1) r0 ps
+  ⟨w.1, rr.1, rr.2.broken, w.2.broken⟩
+
 /-! ### Both directions of one connection (request / response) -/
 
 /-- Forward phase as in `runStream`, then the reverse phase on the SAME two stream objects. -/
